@@ -370,4 +370,20 @@ theorem keyMap_copies :
     keyMapFrom ≠ [] ∧ keyMapFrom.all (· == "make") = true ∧
     keyMapWrites.all (· == "$map[string]interface{}") = true := by decide
 
+/-! ### round 4: the decoder of the hook path (core/config `newDecoderConfig`, `Decode`, `DecodeAndValidate`) -/
+
+/-- the flags `Model/C18Over.decode` is instantiated with: ZeroFields = false (a map / pointer / array option keeps what the
+registered default holds and the settings do not name, an explicit null leaves the default alone), unknown keys are
+errors, no weak typing -/
+theorem decoder_flags : decoderZeroFields = false ∧ decoderErrorUnused = true ∧ decoderWeaklyTyped = false := by decide
+
+/-- every `Decode` works on a DecoderConfig of its own whose Result is the configuration it was given: concurrent
+creations (every instance of a pool builds its gun in its own goroutine) cannot decode into each other's configuration.
+Robust against building the literal in a local variable first and against renamed parameters. -/
+theorem decoder_fresh :
+    decoderFresh = true ∧ decoderResultFrom = "$any" ∧ decodeMakes = ["newDecoderConfig($any#1)"] := by decide
+
+/-- the fillConf of the hook path validates what it decoded (`parseConf_fills` says the closure calls this function) -/
+theorem decode_validates : decodeAndValidateCalls = ["Decode($any, $any#1)", "Validate($any#1)"] := by decide
+
 end Pandora.Bridge.Plugin
